@@ -50,6 +50,7 @@ def rty(r):
             "ropqlt": lambda: "%sOpLt<%s>" % (amp(s[0]), lt(s[1])),
             "ropqlt_e": lambda: "&OpLt<%s>" % lt(s[0]), "roptlt_e": lambda: "Option<&OpLt<%s>>" % lt(s[0]),
             "rokerr_e": lambda: "Result<&Opq, Er1<%s>>" % lt(s[0]),
+            "rost1_e": lambda: "Result<Option<St1>, ()>", "reost1_e": lambda: "Result<(), Option<St1>>",
             "rerr1": lambda: "Result<(), Er1<%s>>" % lt(s[0]), "rwerr1": lambda: "Result<(), Er1<%s>>" % lt(s[0]),
             "rokerr": lambda: "Result<%sOpq, Er1<%s>>" % (amp(s[0]), lt(s[1]))}[k]()
 
@@ -328,6 +329,37 @@ def struct_getters(rep, wd, getters):
     return n
 
 
+def dart_slice_views(rep, wd):
+    """A borrowed primitive slice comes back to Dart as a typed-list VIEW into Rust memory: the helper that builds the view has to
+    attach the lifetime edges it was given to it, for every element type (a copy -- bool, usize, isize, strings -- needs nothing)."""
+    elems = ["u8", "i8", "u16", "i16", "u32", "i32", "u64", "i64", "f32", "f64", "usize", "isize", "bool", "DiplomatChar"]
+    src = os.path.join(wd, "sliceviews.rs")
+    ms = "".join("        pub fn s%d<'a>(&'a self) -> &'a [%s] { todo!() }\n" % (i, e) for i, e in enumerate(elems))
+    open(src, "w").write("#[diplomat::bridge]\nmod ffi {\n    use diplomat_runtime::DiplomatChar;\n    #[diplomat::opaque]\n    pub struct Buf(u8);\n    impl Buf {\n%s    }\n}\n" % ms)
+    out = os.path.join(wd, "sliceviews_dart")
+    r = lib.run_tool("dart", src, out)
+    if r["rc"] != 0:
+        rep.violation({"leg": "slice-views", "backend": "dart", "what": "backend failed on slice returns"}, {"stderr": r["stderr"][-800:]})
+        return 0
+    text = open(os.path.join(out, "lib.g.dart")).read()
+    n = 0
+    for m in re.finditer(r'final class (_Slice\w+) extends ffi\.Struct \{(.*?)\n\}\n', text, re.S):
+        name, body = m.group(1), m.group(2)
+        td = re.search(r' _toDart\(core\.List<Object> lifetimeEdges[^)]*\) \{(.*?)\n  \}', body, re.S)
+        if not td:
+            continue
+        n += 1
+        view = "asTypedList(" in td.group(1)
+        if view and "_nopFree.attach(r, lifetimeEdges)" not in td.group(1):
+            rep.violation({"leg": "slice-views", "backend": "dart", "what": "a view into Rust memory is returned without its lifetime edges", "helper": name},
+                          {"body": td.group(1).strip()[:600]})
+        rep.nontriv("dart slice view " + name)
+    if n < 8:
+        raise lib.ToolError("slice-views leg: only %d Dart slice helpers with a _toDart found" % n)
+    rep.extra["dart_slice_helpers_checked"] = n
+    return n
+
+
 def _names(tokens, sig):
     """map identifiers found in an edge array back to parameter names"""
     got = set()
@@ -447,6 +479,7 @@ def run(rep, tier):
                 if (not c["accepted"]) or any(c["edges"].values()):
                     rep.nontriv(c["sig"])
     k = backend_emission(rep, cases, L, wd, 60 if tier == "quick" else 400)
+    k += dart_slice_views(rep, wd)
     rep.extra["backend_emission_checked"] = k
     gt = lib.tlc("life", "MC_Lifetimes", "getters.cfg", workers=1, coverage=False)
     lib.tlc_expect_ok(gt, "struct field/lifetime table")
